@@ -49,6 +49,10 @@ def _cfg(name="c09", grid_n=3, n_mazes=1, seed=7, ctor="gen_dfs"):
     return MazeDatasetConfig(name=name, grid_n=grid_n, n_mazes=n_mazes, seed=seed, maze_ctor=GENERATORS_MAP[ctor])
 
 
+class RoundTripFailed(Exception):
+    pass
+
+
 def _roundtrip(m, rep):
     """equal copies produced by the library's own (de)serialization routes (int8 arrays for the minimal ones)"""
     from maze_dataset import MazeDataset
@@ -105,8 +109,31 @@ def build(d, same=None):
             kw = dict(start_pos=np.array(d["start"]), end_pos=np.array(d["end"]))
         m = mz.SolvedMaze(connection_list=conn, solution=sol, generation_meta=meta, **kw)
     if rep.startswith("rt_"):
-        m = _roundtrip(m, rep)
+        try:
+            m = _roundtrip(m, rep)
+        except Exception as e:  # noqa: BLE001 - (de)serialization is another property's business
+            raise RoundTripFailed(f"{rep}: {type(e).__name__}") from e
     return m
+
+
+def safe_build(d, same=None):
+    """-> (object | None, 'build' record | None, description actually used).  The library raising while a
+    described (well-formed) maze is built is an OBSERVATION that the oracle judges, never a harness error;
+    a failing serialization round trip falls back to a plain copy and is reported as a divergence."""
+    try:
+        return build(d, same), None, d
+    except RoundTripFailed:
+        d = dict(d, rep="copy(rt_failed)")
+    except BaseException as e:  # noqa: BLE001
+        if isinstance(e, (KeyboardInterrupt, SystemExit)):
+            raise
+        return None, _build_failed(d, e), d
+    try:
+        return build(d, same), None, d
+    except BaseException as e:  # noqa: BLE001
+        if isinstance(e, (KeyboardInterrupt, SystemExit)):
+            raise
+        return None, _build_failed(d, e), d
 
 
 def proj(m):
@@ -161,33 +188,22 @@ def obs_foreign(a, pa, tag, ad):
 
 
 def _build_failed(d, e):
-    """a described (well-formed) maze could not be built: reported as a constructor observation"""
-    conn = np.array(d["conn"])
-    return dict(t="ctor", kind=d["kind"], R=int(conn.shape[1]), C=int(conn.shape[2]), start=d["start"], end=d["end"], form="build:" + d.get("rep", "copy"),
-                res="raise:" + type(e).__name__, got_start=[], got_end=[])  # fmt: skip
+    """a described (well-formed) maze could not be built: recorded and judged (constructor_rejects_valid_maze)"""
+    return dict(t="build", kind=d["kind"], conn=d["conn"], start=d["start"], end=d["end"], sol=d["sol"], rep=d.get("rep", "copy"), meta=d.get("meta", 0), res="raise:" + type(e).__name__)
 
 
 def observe_group(g):
     """one base maze a x all its variants b (+ foreign right operands)"""
-    try:
-        a = build(g["a"])
-    except Exception as e:  # noqa: BLE001
-        if g["a"]["kind"] == "LatticeMaze":
-            raise
-        return [_build_failed(g["a"], e)]
+    a, failed, ad = safe_build(g["a"])
+    if failed:
+        return [failed]
     pa = proj(a)
     out = []
     for v in g["vs"]:
-        try:
-            b = build(v["m"], same=a)
-        except Exception as e:  # noqa: BLE001
-            if v["m"]["kind"] == "LatticeMaze":
-                raise
-            out.append(_build_failed(v["m"], e))
-            continue
-        out.append(obs_pair(a, b, pa, v["rel"], g["a"], v["m"]))
+        b, failed, bd = safe_build(v["m"], same=a)
+        out.append(failed if failed else obs_pair(a, b, pa, v["rel"], ad, bd))
     for tag in g.get("foreign", []):
-        out.append(obs_foreign(a, pa, tag, g["a"]))
+        out.append(obs_foreign(a, pa, tag, ad))
     return out
 
 
@@ -248,26 +264,43 @@ def _cfgrec(c):
     return dict(name=str(c.name), grid_n=int(c.grid_n), seed=int(c.seed), ctor=str(c.maze_ctor.__name__))
 
 
+def _build_all(descs):
+    objs, failed, used = [], [], []
+    for d in descs:
+        o, f, u = safe_build(d)
+        objs.append(o)
+        used.append(u)
+        if f:
+            failed.append(f)
+    return objs, failed, used
+
+
 def observe_ds(c):
     """MazeDataset(cfg_a, pool[la]) == MazeDataset(cfg_b, fresh copies of pool[lb]) for every cfg variant"""
     from maze_dataset import MazeDataset
 
-    A = [build(c["pool"][i - 1]) for i in c["la"]]
+    A, failed, ua = _build_all([c["pool"][i - 1] for i in c["la"]])
+    if failed:
+        return failed
     base_kw = dict(name="c09", grid_n=max(c["R"], c["C"]), n_mazes=len(A), seed=7, ctor="gen_dfs")
     ca = _cfg(**base_kw)
-    dsa = MazeDataset(ca, A)
+    ra, dsa = mz.outcome(lambda: MazeDataset(ca, A))
     out = []
     for v in c["cfgs"]:
-        B = [build(c["pool"][i - 1]) for i in c["lb"]]
+        B, failed, ub = _build_all([c["pool"][i - 1] for i in c["lb"]])
+        if failed:
+            out += failed
+            continue
         cb = ca if v == "same" else _cfg(**_cfg_variant(base_kw, v))
-        dsb = MazeDataset(cb, B)
+        rb, dsb = mz.outcome(lambda: MazeDataset(cb, B))
+        ok = ra == "ok" and rb == "ok"
         out.append(dict(
             t="ds", cv=v, ca=_cfgrec(ca), cb=_cfgrec(cb), na=int(ca.n_mazes), nb=int(cb.n_mazes), ceq=tv(lambda: ca == cb),
-            ma=[proj(m) for m in A], mb=[proj(m) for m in B], eq=tv(lambda: dsa == dsb), ne=tv(lambda: dsa != dsb),
-            ra=[c["pool"][i - 1].get("rep", "copy") for i in c["la"]], rb=[c["pool"][i - 1].get("rep", "copy") for i in c["lb"]],
-            ea=[c["pool"][i - 1].get("meta", 0) for i in c["la"]], eb=[c["pool"][i - 1].get("meta", 0) for i in c["lb"]],
+            ma=[proj(m) for m in A], mb=[proj(m) for m in B],
+            eq=tv(lambda: dsa == dsb) if ok else (ra if ra != "ok" else rb), ne=tv(lambda: dsa != dsb) if ok else (ra if ra != "ok" else rb),
+            ra=[d.get("rep", "copy") for d in ua], rb=[d.get("rep", "copy") for d in ub], ea=[d.get("meta", 0) for d in ua], eb=[d.get("meta", 0) for d in ub],
         ))  # fmt: skip
-    if c["la"] == c["lb"]:  # the dataset against a non-dataset: never raises, never equal
+    if c["la"] == c["lb"] and ra == "ok":  # the dataset against a non-dataset: never raises, never equal
         for tag in ("None", "list"):
             o = None if tag == "None" else list(A)
             out.append(dict(t="foreign", a=dict(kind="MazeDataset", conn=[], start=[], end=[], sol=[]), other=tag,
@@ -277,9 +310,19 @@ def observe_ds(c):
 
 def observe_dedup(c):
     """c = {descs: [...], same_as: [...]}: de-duplication of a list of mazes through set() and dict.fromkeys()"""
-    objs = []
+    objs, used, failed = [], [], []
     for d, sa in zip(c["descs"], c["same_as"]):
-        objs.append(objs[sa] if sa >= 0 else build(d))
+        if sa >= 0:
+            objs.append(objs[sa])
+            used.append(used[sa])
+            continue
+        o, f, u = safe_build(d)
+        objs.append(o)
+        used.append(u)
+        if f:
+            failed.append(f)
+    if failed:
+        return failed
     hs_ok = all(mz.outcome(lambda o=o: hash(o))[0] == "ok" for o in objs)
     rs, ns = mz.outcome(lambda: len(set(objs)))
     rd, keys = mz.outcome(lambda: list(dict.fromkeys(objs)))
@@ -287,12 +330,12 @@ def observe_dedup(c):
     if rd == "ok":
         for k in keys:
             first.append(next(i for i, o in enumerate(objs) if o is k))
-    return dict(t="dedup", ms=[proj(o) for o in objs], hs_ok=hs_ok, set_res=rs, set_n=int(ns) if rs == "ok" else -1, dict_res=rd, dict_first=first,
-                reps=[d.get("rep", "copy") for d in c["descs"]], metas=[d.get("meta", 0) for d in c["descs"]], same_as=list(c["same_as"]))  # fmt: skip
+    return [dict(t="dedup", ms=[proj(o) for o in objs], hs_ok=hs_ok, set_res=rs, set_n=int(ns) if rs == "ok" else -1, dict_res=rd, dict_first=first,
+                 reps=[d.get("rep", "copy") for d in used], metas=[d.get("meta", 0) for d in used], same_as=list(c["same_as"]))]  # fmt: skip
 
 
 def observe_case(c):
-    return {"pairs": observe_group, "ctor": observe_ctor, "ds": observe_ds, "dedup": lambda x: [observe_dedup(x)]}[c["t"]](c)
+    return {"pairs": observe_group, "ctor": observe_ctor, "ds": observe_ds, "dedup": observe_dedup}[c["t"]](c)
 
 
 # ------------------------------------------------------------------ seeded random larger cases (same case forms)
@@ -445,7 +488,7 @@ def rand_dedup(args):
             m = dict(m, rep="copy")
         descs.append(m)
         same_as.append(-1)
-    return observe_dedup(dict(t="dedup", descs=descs, same_as=same_as))
+    return observe_dedup(dict(t="dedup", descs=descs, same_as=same_as))  # a list of records
 
 
 def rand_ctor(args):
@@ -498,7 +541,7 @@ def rand_ds(args):
     return observe_ds(dict(t="ds", R=n, C=n, pool=pool, la=la, lb=lb, cfgs=["same", "copy", ["name", "grid_n", "seed", "ctor", "n_mazes"][k % 5]]))
 
 
-# ------------------------------------------------------------------ canaries
+# ------------------------------------------------------------------ canaries (synthetic, independent of the code under test)
 def _first(recs, pred):
     return next((r for r in recs if pred(r)), None)
 
@@ -509,70 +552,76 @@ def _mk(r, **kw):
     return c
 
 
-def canaries_for(recs):
-    """deliberately corrupted copies of real records + the clause that must reject each"""
-    out = []
-    okh = dict(ha="ok", hb="ok")
-    p = _first(recs, lambda r: r["t"] == "pair" and r["rel"] == "copy")
-    if p:
-        good = dict(eq="True", ne="False", eq_r="True", ne_r="False", heq=True, set_res="ok", set_n=1, dict_res="ok", dict_n=1, exp=True, **okh)
-        out += [
-            (_mk(p, **dict(good, eq="raise:ValueError")), "eq_raises"),
-            (_mk(p, **dict(good, ne_r="raise:ValueError")), "ne_raises"),
-            (_mk(p, **dict(good, eq="False")), "eq_truth_table"),
-            (_mk(p, **dict(good, ne="True")), "ne_truth_table"),
-            (_mk(p, **dict(good, ne_r="True")), "ne_truth_table_reflected"),
-            (_mk(p, **dict(good, hb="raise:TypeError", heq=False)), "unhashable"),
-            (_mk(p, **dict(good, heq=False)), "hash_inconsistent"),
-            (_mk(p, **dict(good, set_n=2)), "set_dedup"),
-            (_mk(p, **dict(good, dict_n=2)), "dict_dedup"),
-            (_mk(p, **dict(good, set_res="raise:TypeError", set_n=-1)), "set_raises"),
-            (_mk(p, **dict(good, exp=False)), "M:scope_label"),
-        ]
-    p = _first(recs, lambda r: r["t"] == "pair" and r["rel"] == "copy" and r["a"]["kind"] == "TargetedLatticeMaze")
-    if p:
-        bad = _mk(p, eq="True", ne="False", eq_r="True", ne_r="False", heq=True, set_res="ok", set_n=1, dict_res="ok", dict_n=1, exp=True, **okh)
-        bad["a"]["start"] = [-1, 0]
-        bad["b"]["start"] = [-1, 0]
-        out.append((bad, "holds_end_outside_grid"))
-    bad_ne = dict(eq="False", ne="True", eq_r="False", ne_r="True", heq=False, set_res="ok", set_n=2, dict_res="ok", dict_n=2, exp=False, **okh)
-    for rel in ("bit", "shape", "kind", "solcell", "start"):
-        p = _first(recs, lambda r: r["t"] == "pair" and r["rel"] == rel)
-        if p:
-            out.append((_mk(p, **dict(bad_ne, eq="True")), "eq_truth_table"))
-            out.append((_mk(p, **dict(bad_ne, eq_r="True")), "eq_truth_table_reflected"))
-            out.append((_mk(p, **dict(bad_ne, ne="False")), "ne_truth_table"))
-            out.append((_mk(p, **dict(bad_ne, set_n=1)), "set_dedup"))
-    p = _first(recs, lambda r: r["t"] == "foreign")
-    if p:
-        good = dict(eq="False", ne="True", eq_r="False", ne_r="True")
-        out += [(_mk(p, **dict(good, eq="True")), "eq_truth_table"), (_mk(p, **dict(good, eq_r="raise:AttributeError")), "eq_raises"), (_mk(p, **dict(good, ne="False")), "ne_truth_table")]
-    ingrid = lambda r: all(0 <= r[k][0] < r["R"] and 0 <= r[k][1] < r["C"] for k in ("start", "end"))  # noqa: E731
-    p = _first(recs, lambda r: r["t"] == "ctor" and not ingrid(r))
-    if p:
-        out += [(_mk(p, res="ok", got_start=p["start"], got_end=p["end"]), "accepts_end_outside_grid"), (_mk(p, res="raise:IndexError", got_start=[], got_end=[]), "wrong_exception_type")]
-    p = _first(recs, lambda r: r["t"] == "ctor" and not ingrid(r) and min(r["start"]) < 0 and r["start"][0] < r["R"] and r["start"][1] < r["C"])
-    if p:  # the historical defect: a negative coordinate accepted
-        out.append((_mk(p, res="ok", got_start=p["start"], got_end=p["end"]), "holds_end_outside_grid"))
-    p = _first(recs, lambda r: r["t"] == "ctor" and ingrid(r))
-    if p:
-        out += [(_mk(p, res="raise:ValueError", got_start=[], got_end=[]), "rejects_end_inside_grid"), (_mk(p, res="ok", got_start=[p["start"][0], p["C"]], got_end=p["end"]), "holds_end_outside_grid")]
-    same_ms = lambda r: json.dumps(r["ma"]) == json.dumps(r["mb"])  # noqa: E731
-    p = _first(recs, lambda r: r["t"] == "ds" and r["cv"] == "copy" and same_ms(r) and len(r["ma"]) > 0)
-    if p:
-        out += [(_mk(p, eq="False", ne="True", ceq="True"), "ds_eq_truth_table"), (_mk(p, eq="True", ne="True", ceq="True"), "ds_ne_truth_table"), (_mk(p, eq="raise:ValueError", ne="raise:ValueError", ceq="True"), "ds_eq_raises")]
-    p = _first(recs, lambda r: r["t"] == "ds" and r["cv"] == "copy" and not same_ms(r))
-    if p:
-        out.append((_mk(p, eq="True", ne="False", ceq="True"), "ds_eq_truth_table"))
-    p = _first(recs, lambda r: r["t"] == "ds" and r["cv"] == "name" and same_ms(r))
-    if p:
-        out.append((_mk(p, eq="True", ne="False", ceq="False"), "ds_eq_truth_table"))
-    p = _first(recs, lambda r: r["t"] == "dedup" and len(r["dict_first"]) >= 1)
-    if p:
-        n = len(p["dict_first"])
-        good = dict(hs_ok=True, set_res="ok", set_n=n, dict_res="ok")
-        out += [(_mk(p, **dict(good, set_n=n + 1)), "set_dedup"), (_mk(p, **dict(good, dict_first=p["dict_first"][:-1])), "dict_dedup"), (_mk(p, **dict(good, hs_ok=False)), "unhashable")]
-    return out
+def synthetic_canaries():
+    """-> (controls, canaries).  controls: hand-made CORRECT records the oracle must accept; canaries: the same
+    records with one field corrupted + the clause that must reject each.  Nothing here depends on the library,
+    so a defective library can never turn a canary into a machinery error."""
+    C22 = [[[1, 0], [0, 0]], [[1, 0], [1, 0]]]
+    C23 = [[[1, 0, 1], [0, 0, 0]], [[1, 1, 0], [0, 1, 0]]]
+    C32 = [[[1, 0], [1, 0], [0, 0]], [[1, 0], [1, 0], [0, 0]]]  # the same 12 bytes as C23 poured into 3x2
+    L = dict(kind="LatticeMaze", conn=C23, start=[], end=[], sol=[])
+    T = dict(kind="TargetedLatticeMaze", conn=C22, start=[0, 0], end=[1, 1], sol=[])
+    S = dict(kind="SolvedMaze", conn=C22, start=[0, 0], end=[1, 1], sol=[[0, 0], [0, 1], [1, 1]])
+    eqr = dict(eq="True", ne="False", eq_r="True", ne_r="False", ha="ok", hb="ok", heq=True, set_res="ok", set_n=1, dict_res="ok", dict_n=1, exp=True, arep="copy", brep="copy", ameta=0, bmeta=0)
+    ner = dict(eq="False", ne="True", eq_r="False", ne_r="True", ha="ok", hb="ok", heq=False, set_res="ok", set_n=2, dict_res="ok", dict_n=2, exp=False, arep="copy", brep="copy", ameta=0, bmeta=0)
+    controls, can = [], []
+    for a in (L, T, S):
+        p = dict(t="pair", rel="copy", a=a, b=copy.deepcopy(a), **eqr)
+        controls.append(p)
+        can += [
+            (_mk(p, eq="raise:ValueError"), "eq_raises"), (_mk(p, eq_r="nonbool:ndarray"), "eq_raises"), (_mk(p, ne_r="raise:ValueError"), "ne_raises"),
+            (_mk(p, eq="False"), "eq_truth_table"), (_mk(p, eq_r="False"), "eq_truth_table_reflected"), (_mk(p, ne="True"), "ne_truth_table"), (_mk(p, ne_r="True"), "ne_truth_table_reflected"),
+            (_mk(p, hb="raise:TypeError", heq=False), "unhashable"), (_mk(p, heq=False), "hash_inconsistent"),
+            (_mk(p, set_n=2), "set_dedup"), (_mk(p, dict_n=2), "dict_dedup"), (_mk(p, set_res="raise:TypeError", set_n=-1), "set_raises"), (_mk(p, dict_res="raise:TypeError", dict_n=-1), "dict_raises"),
+            (_mk(p, exp=False), "M:scope_label"),
+        ]  # fmt: skip
+    for nm, x in (("negative", [-1, 0]), ("too_large", [0, 2])):
+        bad = dict(t="pair", rel="copy", a=dict(T, start=x), b=dict(T, start=x), **eqr)
+        can.append((bad, "holds_end_outside_grid"))
+    diff = [
+        ("bit", S, dict(S, conn=[[[1, 0], [0, 0]], [[1, 0], [1, 1]]])),  # boundary bit
+        ("shape", L, dict(L, conn=C32)),  # equal bytes, other shape: hash may collide, == must be False
+        ("kind", T, dict(T, kind="SolvedMaze", sol=[[0, 0], [1, 0], [1, 1]])),
+        ("kind", dict(L, conn=C22), dict(T, start=[0, 0], end=[0, 0])),
+        ("solcell", S, dict(S, sol=[[0, 0], [1, 0], [1, 1]])),
+        ("longer", S, dict(S, sol=S["sol"] + [[1, 1]])),
+        ("start", T, dict(T, start=[0, 1])),
+        ("end", T, dict(T, end=[1, 0])),
+    ]
+    for rel, a, b in diff:
+        p = dict(t="pair", rel=rel, a=a, b=b, **ner)
+        controls.append(p)
+        controls.append(_mk(p, heq=True))  # a hash collision between different values is allowed
+        can += [(_mk(p, eq="True"), "eq_truth_table"), (_mk(p, eq_r="True"), "eq_truth_table_reflected"), (_mk(p, ne="False"), "ne_truth_table"),
+                (_mk(p, set_n=1), "set_dedup"), (_mk(p, dict_n=1), "dict_dedup"), (_mk(p, exp=True), "M:scope_label")]  # fmt: skip
+    f = dict(t="foreign", a=S, other="None", eq="False", ne="True", eq_r="False", ne_r="True", arep="copy", ameta=0)
+    controls.append(f)
+    can += [(_mk(f, eq="True"), "eq_truth_table"), (_mk(f, eq_r="raise:AttributeError"), "eq_raises"), (_mk(f, ne="False"), "ne_truth_table")]
+    ok = dict(t="ctor", kind="TargetedLatticeMaze", R=2, C=3, start=[1, 2], end=[0, 0], form="array", res="ok", got_start=[1, 2], got_end=[0, 0])
+    controls.append(ok)
+    can += [(_mk(ok, res="raise:ValueError", got_start=[], got_end=[]), "rejects_end_inside_grid"), (_mk(ok, got_start=[1, 3]), "holds_end_outside_grid"), (_mk(ok, got_start=[0, 2]), "M:ends_not_as_given")]
+    for s0, e0 in (([-1, 0], [0, 0]), ([0, -1], [0, 0]), ([0, 0], [-1, 2]), ([0, 0], [1, -2]), ([2, 0], [0, 0]), ([0, 3], [0, 0]), ([0, 0], [2, 2]), ([1, 1], [1, 3]), ([2, 2], [0, 0]), ([0, 0], [2, 1])):
+        out = dict(t="ctor", kind="SolvedMaze", R=2, C=3, start=s0, end=e0, form="walk", res="raise:ValueError", got_start=[], got_end=[])
+        controls.append(out)
+        can += [(_mk(out, res="ok", got_start=s0, got_end=e0), "accepts_end_outside_grid"), (_mk(out, res="ok", got_start=s0, got_end=e0), "holds_end_outside_grid"),
+                (_mk(out, res="raise:IndexError"), "wrong_exception_type")]  # fmt: skip
+    cf_ = dict(name="c09", grid_n=2, seed=7, ctor="gen_dfs")
+    d = dict(t="ds", cv="copy", ca=cf_, cb=dict(cf_), na=2, nb=2, ceq="True", ma=[S, S], mb=[S, dict(S)], eq="True", ne="False", ra=["copy"] * 2, rb=["copy"] * 2, ea=[0, 0], eb=[0, 0])
+    controls += [d, _mk(d, nb=3, ceq="False", eq="False", ne="True"), _mk(d, nb=3, ceq="True")]
+    can += [(_mk(d, eq="False"), "ds_eq_truth_table"), (_mk(d, ne="True"), "ds_ne_truth_table"), (_mk(d, eq="raise:ValueError", ne="raise:ValueError"), "ds_eq_raises"),
+            (_mk(d, ceq="False"), "M:cfg_eq_model"), (_mk(d, nb=3, ceq="False"), "ds_eq_truth_table")]  # fmt: skip
+    for nm, mb, cb in (("cell", [S, dict(S, sol=[[0, 0], [1, 0], [1, 1]])], cf_), ("shorter", [S], cf_), ("longer", [S, S, S], cf_), ("order", [dict(S, conn=C22), T], cf_), ("cfg", [S, S], dict(cf_, name="c09x"))):
+        ma = [T, dict(S, conn=C22)] if nm == "order" else [S, S]
+        u = _mk(d, ma=ma, mb=mb, cb=cb, eq="False", ne="True", ceq="False" if nm == "cfg" else "True", rb=["copy"] * len(mb), eb=[0] * len(mb))
+        controls.append(u)
+        can += [(_mk(u, eq="True"), "ds_eq_truth_table"), (_mk(u, ne="False"), "ds_ne_truth_table")]
+    dd = dict(t="dedup", ms=[S, T, dict(S), dict(S, sol=[[0, 0], [1, 0], [1, 1]]), T], hs_ok=True, set_res="ok", set_n=3, dict_res="ok", dict_first=[0, 1, 3], reps=["copy"] * 5, metas=[0] * 5, same_as=[-1] * 5)
+    controls.append(dd)
+    can += [(_mk(dd, set_n=4), "set_dedup"), (_mk(dd, set_n=2), "set_dedup"), (_mk(dd, dict_first=[0, 1, 2, 3]), "dict_dedup"), (_mk(dd, dict_first=[0, 1]), "dict_dedup"), (_mk(dd, dict_first=[0, 2, 3]), "dict_dedup"),
+            (_mk(dd, hs_ok=False), "unhashable"), (_mk(dd, set_res="raise:TypeError", set_n=-1), "set_raises")]  # fmt: skip
+    b = dict(t="build", **S, rep="copy", meta=0, res="raise:ValueError")
+    can.append((b, "constructor_rejects_valid_maze"))
+    return [copy.deepcopy(x) for x in controls], [(copy.deepcopy(x), cl) for x, cl in can]
 
 
 # ------------------------------------------------------------------ judging
@@ -597,33 +646,36 @@ def _case_key(r):
         return [t, r["kind"], r["R"], r["C"], r["start"], r["end"], r["form"]]
     if t == "ds":
         return [t, r["ca"], r["cb"], r["na"], r["nb"], r["ma"], r["mb"], r["rb"]]
+    if t == "build":
+        return [t, r["kind"], r["conn"], r["start"], r["end"], r["sol"], r["rep"]]
     return [t, r["ms"], r["reps"], r["same_as"]]
 
 
-def judge(chk, recs, label, what, *, require=()):
+def judge(chk, recs, label, what):
     """Judge recs with Trace_MazeValue.  Same contract as lib.judge_with_canaries (an accepted canary is a
-    machinery error), but the number of LISTED violations is capped per (record kind, clause): on a tree
-    where == raises for every pair this would otherwise write ~10^5 replay files."""
+    machinery error; here also a rejected hand-made CORRECT control record), but the canaries are synthetic and
+    the number of LISTED violations is capped per (record kind, clause): on a tree where == raises for every
+    pair this would otherwise write ~10^5 replay files."""
     if not recs:
         return
-    can = canaries_for(recs)
-    got_clauses = {cl for _, cl in can}
-    for cl in require:
-        if cl not in got_clauses:
-            raise lib.MachineryError(f"no canary for clause {cl} could be built from the {label} records")
+    controls, can = synthetic_canaries()
     for i, x in enumerate(recs):
         x["id"] = i
     allrecs = list(recs)
-    for k, (c, _cl) in enumerate(can):
+    extra = [(c, None) for c in controls] + can
+    for k, (c, _cl) in enumerate(extra):
         c["id"] = lib.CANARY_BASE + k
-        allrecs.insert((len(allrecs) * (k + 1)) // (len(can) + 1), c)
+        allrecs.insert((len(allrecs) * (k + 1)) // (len(extra) + 1), c)
     res = lib.oracle("Trace_MazeValue", allrecs, tag=label)
-    for c, cl in can:
+    for c, cl in extra:
         got = res.verdicts.pop(c["id"], [])
-        if cl not in got:
+        if cl is None and got:
+            raise lib.MachineryError(f"control record rejected by Trace_MazeValue: {got} for {json.dumps(c)[:400]}")
+        if cl is not None and cl not in got:
             raise lib.MachineryError(f"canary not rejected by Trace_MazeValue: expected clause {cl!r}, got {got} ({c['t']} record)")
     chk.notes["canaries_rejected"] = chk.notes.get("canaries_rejected", 0) + len(can)
-    res.records -= len(can)
+    chk.notes["controls_accepted"] = chk.notes.get("controls_accepted", 0) + len(controls)
+    res.records -= len(extra)
     chk.add_oracle("Trace_MazeValue", res, what)
     listed = chk.notes.setdefault("_listed", {})
     unlisted = 0
@@ -639,13 +691,15 @@ def judge(chk, recs, label, what, *, require=()):
             else:
                 unlisted += 1
     chk.notes["violations_beyond_listing_cap"] = chk.notes.get("violations_beyond_listing_cap", 0) + unlisted
+    kinds = chk.notes.setdefault("records_by_kind", {})
+    rels = chk.notes.setdefault("pairs_by_relation", {})
     for r in recs:
         chk.count(_case_key(r), _nontrivial(r))
-        kinds = chk.notes.setdefault("records_by_kind", {})
         kinds[r["t"]] = kinds.get(r["t"], 0) + 1
         if r["t"] == "pair":
-            rels = chk.notes.setdefault("pairs_by_relation", {})
             rels[r["rel"]] = rels.get(r["rel"], 0) + 1
+        if any(str(x).endswith("(rt_failed)") for x in [r.get("arep"), r.get("brep")] + list(r.get("ra", [])) + list(r.get("rb", [])) + list(r.get("reps", []))):
+            chk.divergence("M:serialization_round_trip_failed", {k: v for k, v in r.items() if k in ("t", "rel", "arep", "brep", "ra", "rb", "reps")}, label)
 
 
 def _read(path):
@@ -658,11 +712,6 @@ def _flat(xs):
 
 
 # ------------------------------------------------------------------ main
-PAIR_CLAUSES = ("eq_raises", "ne_raises", "eq_truth_table", "eq_truth_table_reflected", "ne_truth_table", "unhashable", "hash_inconsistent", "set_dedup", "dict_dedup", "holds_end_outside_grid")
-CTOR_CLAUSES = ("accepts_end_outside_grid", "rejects_end_inside_grid", "wrong_exception_type", "holds_end_outside_grid")
-DS_CLAUSES = ("ds_eq_truth_table", "ds_ne_truth_table", "ds_eq_raises")
-
-
 def main(chk: lib.Check) -> int:
     thorough = chk.tier == "thorough"
     chk.rule = (
@@ -709,11 +758,14 @@ def main(chk: lib.Check) -> int:
         ds_cases = _read(f"{tmp}/small_ds.ndjson") + _read(f"{tmp}/cd23_ds.ndjson")
         chk.notes["scope_emitted_by_TLC"] = dict(ctor_cases=len(ctor_cases), ds_cases=len(ds_cases), pair_groups=0, pairs=0)
         recs = _flat(lib.pmap(observe_case, ctor_cases, chunksize=64))
-        chk.sample({k: recs[len(recs) // 2][k] for k in ("t", "kind", "R", "C", "start", "end", "form", "res")})
+        x = _first(recs[len(recs) // 2 :], lambda r: r["t"] == "ctor")
+        if x:
+            chk.sample({k: x[k] for k in ("t", "kind", "R", "C", "start", "end", "form", "res")})
         recs2 = _flat(lib.pmap(observe_case, ds_cases, chunksize=16))
-        x = _first(recs2, lambda r: r["t"] == "ds" and r["cv"] == "copy" and len(r["ma"]) == 2 and r["eq"] == "True") or recs2[0]
-        chk.sample({k: x[k] for k in ("t", "cv", "ca", "cb", "eq", "ne", "ra", "rb")})
-        judge(chk, recs + recs2, "ctor_ds", "constructor outcomes over all endpoint pairs in -2..R+1 x -2..C+1; MazeDataset == / != over cfg variants x maze lists", require=CTOR_CLAUSES + DS_CLAUSES)
+        x = _first(recs2, lambda r: r["t"] == "ds" and r["cv"] == "copy" and len(r["ma"]) == 2 and r["eq"] == "True") or _first(recs2, lambda r: r["t"] == "ds")
+        if x:
+            chk.sample({k: x[k] for k in ("t", "cv", "ca", "cb", "eq", "ne", "ra", "rb")})
+        judge(chk, recs + recs2, "ctor_ds", "constructor outcomes over all endpoint pairs in -2..R+1 x -2..C+1; MazeDataset == / != over cfg variants x maze lists")
         del recs, recs2
         files = [f"{tmp}/{j[0]}_pairs.ndjson" for j in jobs if j[0] != "cd23"]
         batch = 5
@@ -726,8 +778,9 @@ def main(chk: lib.Check) -> int:
             if i == 0:
                 for rel in ("rep", "shape"):
                     x = _first(recs, lambda r: r["t"] == "pair" and r["rel"] == rel and r["a"]["kind"] == "SolvedMaze")
-                    chk.sample({k: x[k] for k in ("t", "rel", "a", "b", "brep", "eq", "ne", "heq", "set_n")})
-            judge(chk, recs, "pair", "==, !=, hash, set/dict results of real object pairs judged against Val/Eq", require=PAIR_CLAUSES)
+                    if x:
+                        chk.sample({k: x[k] for k in ("t", "rel", "a", "b", "brep", "eq", "ne", "heq", "set_n")})
+            judge(chk, recs, "pair", "==, !=, hash, set/dict results of real object pairs judged against Val/Eq")
             del recs
         chk.exhaustive = True
         chk.notes["exhaustive_scope"] = "the complete TLC-emitted scope (see rule); 2x3 and 3x2 pairs " + ("for all graphs" if thorough else "for a seeded 1/16 of the graphs")
@@ -738,13 +791,15 @@ def main(chk: lib.Check) -> int:
         x = _first(recs, lambda r: r["t"] == "pair" and r["brep"].startswith("rt_ds_minimal"))
         if x:
             chk.sample({k: x[k] for k in ("t", "rel", "brep", "eq", "heq", "set_n")} | {"shape": [len(x["a"]["conn"][0]), len(x["a"]["conn"][0][0])], "sol_len": len(x["a"]["sol"])})
-        dd = lib.pmap(rand_dedup, [(chk.seed, k, 8) for k in range(n // 2)], chunksize=16)
-        chk.sample({k: dd[0][k] for k in ("t", "reps", "same_as", "set_n", "dict_first")})
+        dd = _flat(lib.pmap(rand_dedup, [(chk.seed, k, 8) for k in range(n // 2)], chunksize=16))
+        x = _first(dd, lambda r: r["t"] == "dedup" and len(r["ms"]) >= 5)
+        if x:
+            chk.sample({k: x[k] for k in ("t", "reps", "same_as", "set_n", "dict_first")})
         recs += dd
         recs += _flat(lib.pmap(rand_ctor, [(chk.seed, k, 15) for k in range(n)], chunksize=32))
         recs += _flat(lib.pmap(rand_ds, [(chk.seed, k, 6) for k in range(n // 3)], chunksize=8))
         judge(chk, recs, "random", "random pairs up to 12x12 (random walks, library round trips giving int8 arrays, multi-digit coordinates), duplicate lists of 2..10 mazes through "
-              "set()/dict.fromkeys(), constructor calls up to 15x15 with coordinates far outside, random datasets", require=PAIR_CLAUSES + CTOR_CLAUSES + DS_CLAUSES)
+              "set()/dict.fromkeys(), constructor calls up to 15x15 with coordinates far outside, random datasets")
     finally:
         shutil.rmtree(tmp, ignore_errors=True)
     chk.notes["violations_listed_by_kind_and_clause"] = chk.notes.pop("_listed", {})
@@ -767,35 +822,29 @@ def _desc(p, rep, meta):
 
 
 def reobserve(case):
+    """re-run the stored case against the real code (every build goes through safe_build: a raising library
+    is an observation here as well)"""
     t = case["t"]
     if t == "pair":
-        ad = _desc(case["a"], case["arep"], case["ameta"])
-        bd = _desc(case["b"], case["brep"], case["bmeta"])
-        a = build(ad)
-        return [obs_pair(a, build(bd, same=a), proj(a), case["rel"], ad, bd)]
+        g = dict(a=_desc(case["a"], case["arep"], case["ameta"]), vs=[dict(rel=case["rel"], m=_desc(case["b"], case["brep"], case["bmeta"]))], foreign=[])
+        return observe_group(g)
     if t == "foreign":
         if case["a"]["kind"] == "MazeDataset":
             raise lib.MachineryError("replay of dataset-vs-foreign records is not supported; replay the accompanying ds record")
-        ad = _desc(case["a"], case["arep"], case["ameta"])
-        a = build(ad)
-        return [obs_foreign(a, proj(a), case["other"], ad)]
+        return observe_group(dict(a=_desc(case["a"], case["arep"], case["ameta"]), vs=[], foreign=[case["other"]]))
+    if t == "build":
+        _o, failed, _d = safe_build({k: case[k] for k in ("kind", "conn", "start", "end", "sol", "rep", "meta")})
+        return [failed] if failed else []
     if t == "ctor":
-        if case["form"].startswith("build:"):
-            d = dict(kind=case["kind"], conn=mz.raw(mz.conn_from_int(case["R"], case["C"], 0)), start=case["start"], end=case["end"], sol=walk(case["start"], case["end"]), rep=case["form"][6:])
-            try:
-                build(d)
-            except Exception as e:  # noqa: BLE001
-                return [_build_failed(d, e)]
-            return []
         return observe_ctor(dict(case, forms=[case["form"]]))
     if t == "ds":
         pool = [_desc(p, r, e) for p, r, e in zip(case["ma"] + case["mb"], case["ra"] + case["rb"], case["ea"] + case["eb"])]
         na = len(case["ma"])
         R = case["ca"]["grid_n"]
         out = observe_ds(dict(R=R, C=R, pool=pool, la=list(range(1, na + 1)), lb=list(range(na + 1, len(pool) + 1)), cfgs=[case["cv"]]))
-        return [r for r in out if r["t"] == "ds"]
+        return [r for r in out if r["t"] != "foreign"]
     if t == "dedup":
-        return [observe_dedup(dict(descs=[_desc(p, r, e) for p, r, e in zip(case["ms"], case["reps"], case["metas"])], same_as=case["same_as"]))]
+        return observe_dedup(dict(descs=[_desc(p, r, e) for p, r, e in zip(case["ms"], case["reps"], case["metas"])], same_as=case["same_as"]))
     raise lib.MachineryError(f"unknown record kind {t}")
 
 
@@ -807,7 +856,7 @@ def replay(path: str) -> int:
     out = lib.oracle("Trace_MazeValue", recs, tag="rp") if recs else None
     bad = sorted({c for v in (out.verdicts.values() if out else []) for c in v if not c.startswith("M:")})
     for r in recs:
-        print("replay:", {k: v for k, v in r.items() if k not in ("a", "b", "ma", "mb", "ms")}, "verdict:", out.verdicts.get(r["id"], []))
+        print("replay:", {k: v for k, v in r.items() if k not in ("a", "b", "ma", "mb", "ms", "conn")}, "verdict:", out.verdicts.get(r["id"], []))
     if bad:
         print(f"VIOLATION property=C09 replay={path}")
         return 1
